@@ -6,32 +6,34 @@ open N2k.Send N2k.Time N2k.Spec
 section
 variable (b : Node) (db : Dev) (m : Msg) (srcA j : Nat) (S' : List Slot) (a0 : Slot)
 
-/-- the receiving node in the middle of the transfer: `k` packets in, `fs` at the driver -/
-def rcv (out : List Delivery) (k : Nat) (fs rxq : List Frame) : Node :=
-  b.upd b.tp (S'.set j (sess a0 m srcA db.source (millis32 b.s.now) k)) out fs rxq
+/-- the receiving node in the middle of the transfer: `k` packets in (the last one at time `mt`), `fs` at the driver -/
+def rcv (mt : Nat) (out : List Delivery) (k : Nat) (fs rxq : List Frame) : Node :=
+  b.upd b.tp (S'.set j (sess a0 m srcA db.source mt k)) out fs rxq
 
 /-- packets `k .. k+x-1` (0-based), none of which ends a CTS window or the message, arrive one after the other -/
 theorem rx_run (out : List Delivery) (fs rxq : List Frame)
     (hd : b.s.devs = [db]) (hq : Quiet b.s 0) (hsrc : srcA < 256) (hdst : m.dst = db.source)
     (hnone : findIdx (sessOf srcA db.source) S' = none) (hj : j < S'.length) (hlen : m.len ≤ 223) :
-    ∀ (x k : Nat), (∀ y, y < x → (k + y + 1) % tpCtsPackets (tpPacketCount m.len) ≠ 0) → 7 * (k + x) < m.len →
-      rxList ((List.range x).map fun y => dtFrame srcA m (k + y)) (rcv b db m srcA j S' a0 out k fs rxq)
-        = rcv b db m srcA j S' a0 out (k + x) fs rxq
-  | 0, k, _, _ => by simp [rxList]
-  | x+1, k, hw, hx => by
+    ∀ (x k mt : Nat), (∀ y, y < x → (k + y + 1) % tpCtsPackets (tpPacketCount m.len) ≠ 0) → 7 * (k + x) < m.len →
+      rxList ((List.range x).map fun y => dtFrame srcA m (k + y)) (rcv b db m srcA j S' a0 mt out k fs rxq)
+        = rcv b db m srcA j S' a0 (if x = 0 then mt else millis32 b.s.now) out (k + x) fs rxq
+  | 0, k, mt, _, _ => by simp [rxList]
+  | x+1, k, mt, hw, hx => by
     rw [List.range_succ_eq_map, List.map_cons, List.map_map]
     simp only [rxList, List.foldl_cons, Nat.add_zero]
     have h0 := hw 0 (by omega)
     unfold rcv
-    rw [rx_mid b db m srcA j k S' a0 out fs rxq hd hq hsrc hdst hnone hj (by omega) hlen]
+    rw [rx_mid b db m srcA j k mt S' a0 out fs rxq hd hq hsrc hdst hnone hj (by omega) hlen]
     rw [if_neg (by simpa using h0), List.append_nil]
-    have ih := rx_run out fs rxq hd hq hsrc hdst hnone hj hlen x (k + 1) (fun y hy => by
+    have ih := rx_run out fs rxq hd hq hsrc hdst hnone hj hlen x (k + 1) (millis32 b.s.now) (fun y hy => by
       have := hw (y + 1) (by omega)
       rw [show k + 1 + y + 1 = k + (y + 1) + 1 by omega]; exact this) (by omega)
     unfold rcv rxList at ih
     have hmap : ((fun y => dtFrame srcA m (k + y)) ∘ Nat.succ) = fun y => dtFrame srcA m (k + 1 + y) := by
       funext y; simp only [Function.comp, Nat.succ_eq_add_one]; congr 1; omega
     rw [hmap, ih]
+    have hmt : (if x = 0 then millis32 b.s.now else millis32 b.s.now) = millis32 b.s.now := by split <;> rfl
+    rw [hmt, if_neg (by omega)]
     congr 3; omega
 
 theorem add_mod_of_dvd (k z c : Nat) (hk : k % c = 0) (hz : z < c) : (k + z) % c = z := by
@@ -40,35 +42,35 @@ theorem add_mod_of_dvd (k z c : Nat) (hk : k % c = 0) (hz : z < c) : (k + z) % c
 theorem add_mod_self_of_dvd (k c : Nat) (hk : k % c = 0) : (k + c) % c = 0 := by
   rw [Nat.add_mod, hk, Nat.mod_self]; simp
 
-theorem rcv_solo (out : List Delivery) (k : Nat) (fs rxq : List Frame) (hd : b.s.devs = [db]) (hq : Quiet b.s 0) :
-    (rcv b db m srcA j S' a0 out k fs rxq).s.devs = [db] ∧ Quiet (rcv b db m srcA j S' a0 out k fs rxq).s 0 :=
+theorem rcv_solo (mt : Nat) (out : List Delivery) (k : Nat) (fs rxq : List Frame) (hd : b.s.devs = [db]) (hq : Quiet b.s 0) :
+    (rcv b db m srcA j S' a0 mt out k fs rxq).s.devs = [db] ∧ Quiet (rcv b db m srcA j S' a0 mt out k fs rxq).s 0 :=
   ⟨hd, upd_quiet _ _ _ _ _ _ hq⟩
 
 /-- **the receiver polls with a complete window that neither is the last one**: it grants the next window -/
-theorem poll_window (k c : Nat) (hc : c = tpCtsPackets (tpPacketCount m.len))
+theorem poll_window (k c mt : Nat) (hc : c = tpCtsPackets (tpPacketCount m.len))
     (hd : b.s.devs = [db]) (hq : Quiet b.s 0) (hsrc : srcA < 256) (hdst : m.dst = db.source)
     (hnone : findIdx (sessOf srcA db.source) S' = none) (hj : j < S'.length) (hlen : m.len ≤ 223)
     (hnotp : (b.tp 0).hasPending = false) (hkc : k % c = 0) (hfull : 7 * (k + c) < m.len) :
-    poll (rcv b db m srcA j S' a0 [] k [] ((List.range c).map fun y => dtFrame srcA m (k + y))) =
-      rcv b db m srcA j S' a0 [] (k + c) [cmFrame db.source srcA (ctsBytes m.pgn (tpPacketCount m.len) (k + c + 1))] [] := by
+    poll (rcv b db m srcA j S' a0 mt [] k [] ((List.range c).map fun y => dtFrame srcA m (k + y))) =
+      rcv b db m srcA j S' a0 (millis32 b.s.now) [] (k + c) [cmFrame db.source srcA (ctsBytes m.pgn (tpPacketCount m.len) (k + c + 1))] [] := by
   have hcpos : 0 < c := by rw [hc]; exact tpCtsPackets_pos _
   have hc5 : c ≤ 5 := by rw [hc]; unfold tpCtsPackets; omega
-  obtain ⟨hNd, hNq⟩ := rcv_solo b db m srcA j S' a0 [] k [] ((List.range c).map fun y => dtFrame srcA m (k + y)) hd hq
+  obtain ⟨hNd, hNq⟩ := rcv_solo b db m srcA j S' a0 mt [] k [] ((List.range c).map fun y => dtFrame srcA m (k + y)) hd hq
   rw [poll_solo _ db hNd hNq (fun h => by simp [rcv, hnotp] at h) (by simp [rcv]; omega)]
-  have hrxq : (rcv b db m srcA j S' a0 [] k [] ((List.range c).map fun y => dtFrame srcA m (k + y))).rxq
+  have hrxq : (rcv b db m srcA j S' a0 mt [] k [] ((List.range c).map fun y => dtFrame srcA m (k + y))).rxq
       = (List.range c).map fun y => dtFrame srcA m (k + y) := rfl
   rw [hrxq]
   obtain ⟨c', hc'⟩ : ∃ c', c = c' + 1 := ⟨c - 1, by omega⟩
   rw [hc', List.range_succ, List.map_append, rxList, List.foldl_append]
   have hrun := rx_run b db m srcA j S' a0 [] [] ((List.range (c' + 1)).map fun y => dtFrame srcA m (k + y))
-    hd hq hsrc hdst hnone hj hlen c' k
+    hd hq hsrc hdst hnone hj hlen c' k mt
     (fun y hy => by rw [← hc, Nat.add_assoc, add_mod_of_dvd k (y + 1) c hkc (by omega)]; omega) (by omega)
   unfold rxList at hrun
   rw [List.range_succ, List.map_append] at hrun
   rw [hrun]
   simp only [List.map_cons, List.map_nil, List.foldl_cons, List.foldl_nil]
   unfold rcv
-  rw [rx_mid b db m srcA j (k + c') S' a0 [] [] _ hd hq hsrc hdst hnone hj (by omega) hlen]
+  rw [rx_mid b db m srcA j (k + c') _ S' a0 [] [] _ hd hq hsrc hdst hnone hj (by omega) hlen]
   have hz : (k + c' + 1) % tpCtsPackets (tpPacketCount m.len) = 0 := by
     rw [← hc, Nat.add_assoc, ← hc']; exact add_mod_self_of_dvd k c hkc
   rw [if_pos hz]
@@ -78,31 +80,31 @@ theorem poll_window (k c : Nat) (hc : c = tpCtsPackets (tpPacketCount m.len))
   exact claimTick_solo _ db hd (upd_quiet _ _ _ _ _ _ hq)
 
 /-- **the receiver polls with the last window**: EndOfMsgACK and exactly one delivery -/
-theorem poll_last (k c x : Nat) (hc : c = tpCtsPackets (tpPacketCount m.len))
+theorem poll_last (k c x mt : Nat) (hc : c = tpCtsPackets (tpPacketCount m.len))
     (hd : b.s.devs = [db]) (hq : Quiet b.s 0) (hsrc : srcA < 256) (hdst : m.dst = db.source)
     (hnone : findIdx (sessOf srcA db.source) S' = none) (hj : j < S'.length) (hlen : m.len ≤ 223) (hl : m.len ≤ m.data.length)
     (hnotp : (b.tp 0).hasPending = false) (hkc : k % c = 0) (hx : 1 ≤ x ∧ x ≤ c)
     (hend : m.len ≤ 7 * (k + x)) (hnot : 7 * (k + x - 1) < m.len) :
-    ∃ S'', poll (rcv b db m srcA j S' a0 [] k [] ((List.range x).map fun y => dtFrame srcA m (k + y))) =
-      b.upd b.tp S'' [{ pgn := m.pgn, src := srcA, dst := db.source, prio := 7, len := m.len, tp := true, data := m.data.take m.len }]
+    ∃ S'', poll (rcv b db m srcA j S' a0 mt [] k [] ((List.range x).map fun y => dtFrame srcA m (k + y))) =
+      b.upd b.tp S'' [delivered m srcA db.source]
         [cmFrame db.source srcA (endAckBytes m.pgn m.len (k + x))] [] := by
   have hc5 : c ≤ 5 := by rw [hc]; unfold tpCtsPackets; omega
-  obtain ⟨hNd, hNq⟩ := rcv_solo b db m srcA j S' a0 [] k [] ((List.range x).map fun y => dtFrame srcA m (k + y)) hd hq
+  obtain ⟨hNd, hNq⟩ := rcv_solo b db m srcA j S' a0 mt [] k [] ((List.range x).map fun y => dtFrame srcA m (k + y)) hd hq
   rw [poll_solo _ db hNd hNq (fun h => by simp [rcv, hnotp] at h) (by simp [rcv]; omega)]
-  have hrxq : (rcv b db m srcA j S' a0 [] k [] ((List.range x).map fun y => dtFrame srcA m (k + y))).rxq
+  have hrxq : (rcv b db m srcA j S' a0 mt [] k [] ((List.range x).map fun y => dtFrame srcA m (k + y))).rxq
       = (List.range x).map fun y => dtFrame srcA m (k + y) := rfl
   rw [hrxq]
   obtain ⟨x', hx'⟩ : ∃ x', x = x' + 1 := ⟨x - 1, by omega⟩
   rw [hx', List.range_succ, List.map_append, rxList, List.foldl_append]
   have hrun := rx_run b db m srcA j S' a0 [] [] ((List.range (x' + 1)).map fun y => dtFrame srcA m (k + y))
-    hd hq hsrc hdst hnone hj hlen x' k
+    hd hq hsrc hdst hnone hj hlen x' k mt
     (fun y hy => by rw [← hc, Nat.add_assoc, add_mod_of_dvd k (y + 1) c hkc (by omega)]; omega) (by omega)
   unfold rxList at hrun
   rw [List.range_succ, List.map_append] at hrun
   rw [hrun]
   simp only [List.map_cons, List.map_nil, List.foldl_cons, List.foldl_nil]
   unfold rcv
-  obtain ⟨S'', hS, _, _⟩ := rx_last b db m srcA j (k + x') S' a0 [] [] ((List.map (fun y => dtFrame srcA m (k + y)) (List.range x') ++ [dtFrame srcA m (k + x')]))
+  obtain ⟨S'', hS, _, _⟩ := rx_last b db m srcA j (k + x') _ S' a0 [] [] ((List.map (fun y => dtFrame srcA m (k + y)) (List.range x') ++ [dtFrame srcA m (k + x')]))
     hd hq hsrc hdst hnone hj (by omega) (by omega) hlen hl
   rw [hS]
   refine ⟨S'', ?_⟩
@@ -117,7 +119,7 @@ theorem poll_rts (hd : b.s.devs = [db]) (hq : Quiet b.s 0) (hsrc : srcA < 256) (
     (hS : S' = b.slots.map (freeSess srcA db.source))
     (hj : findIdx (slotHit m.pgn srcA db.source true) S' = some j) (ha0 : S'[j]? = some a0) :
     poll (b.upd b.tp b.slots [] [] [cmFrame srcA m.dst (announceBytes 16 m)]) =
-      rcv b db m srcA j S' a0 [] 0 [cmFrame db.source srcA (ctsBytes m.pgn (tpPacketCount m.len) 1)] [] := by
+      rcv b db m srcA j S' a0 (millis32 b.s.now) [] 0 [cmFrame db.source srcA (ctsBytes m.pgn (tpPacketCount m.len) 1)] [] := by
   have hdsrc : db.source ≤ 251 := by
     obtain ⟨d', hd', hs, _⟩ := hq.dev
     rw [hd] at hd'; simp at hd'; subst hd'; exact hs
@@ -144,9 +146,9 @@ theorem poll_rts (hd : b.s.devs = [db]) (hq : Quiet b.s 0) (hsrc : srcA < 256) (
         (by rw [hNo]; exact hknown) (by rw [hNs, ← hS]; exact hj) (by rw [hNs, ← hS]; exact ha0)]
   rw [hNs, ← hS, hNn]
   subst hN
-  have hres : ∀ X : Node, X = rcv b db m srcA j S' a0 [] 0 [cmFrame db.source srcA (ctsBytes m.pgn (tpPacketCount m.len) 1)]
+  have hres : ∀ X : Node, X = rcv b db m srcA j S' a0 (millis32 b.s.now) [] 0 [cmFrame db.source srcA (ctsBytes m.pgn (tpPacketCount m.len) 1)]
         [cmFrame srcA m.dst (announceBytes 16 m)] →
-      claimTick { X with rxq := [] } = rcv b db m srcA j S' a0 [] 0 [cmFrame db.source srcA (ctsBytes m.pgn (tpPacketCount m.len) 1)] [] := by
+      claimTick { X with rxq := [] } = rcv b db m srcA j S' a0 (millis32 b.s.now) [] 0 [cmFrame db.source srcA (ctsBytes m.pgn (tpPacketCount m.len) 1)] [] := by
     intro X hX; subst hX
     exact claimTick_solo _ db hd (upd_quiet _ _ _ _ _ _ hq)
   apply hres
@@ -160,21 +162,21 @@ def doneTp (a : Node) (m : Msg) (seq : Nat) : Nat → TpDev :=
            else a.tp j
 
 /-- **the sender polls with the EndOfMsgACK in its queue**: the transfer is over -/
-theorem poll_endack (a : Node) (d : Dev) (m : Msg) (peer seq tmo nb np : Nat) (sl : List Slot) (out : List Delivery)
+theorem poll_endack (a : Node) (d : Dev) (m : Msg) (peer seq t0 tmo nb np : Nat) (sl : List Slot) (out : List Delivery)
     (hd : a.s.devs = [d]) (hq : Quiet a.s 0) (hm : m.dst = peer) (hpeer : peer < 255)
-    (hpgn : m.pgn < 2^24) (htmo : 0 < tmo ∧ tmo ≤ 100) (h64 : a.s.now + 100 < M64) :
-    poll (a.upd (txTp a m seq tmo) sl out [] [cmFrame peer d.source (endAckBytes m.pgn nb np)]) =
+    (hpgn : m.pgn < 2^24) (htmo : tmo ≤ 100) (ht0 : t0 ≤ a.s.now ∧ a.s.now < t0 + tmo) (h64 : a.s.now + 100 < M64) :
+    poll (a.upd (txTp a m seq t0 tmo) sl out [] [cmFrame peer d.source (endAckBytes m.pgn nb np)]) =
       a.upd (doneTp a m seq) sl out [] [] := by
   have hsrc : d.source ≤ 251 := by
     obtain ⟨d', hd', hs, _⟩ := hq.dev
     rw [hd] at hd'; simp at hd'; subst hd'; exact hs
-  generalize hN : a.upd (txTp a m seq tmo) sl out [] [cmFrame peer d.source (endAckBytes m.pgn nb np)] = N
+  generalize hN : a.upd (txTp a m seq t0 tmo) sl out [] [cmFrame peer d.source (endAckBytes m.pgn nb np)] = N
   have hNq : Quiet N.s 0 := by subst hN; exact upd_quiet _ _ _ _ _ _ hq
   have hNd : N.s.devs = [d] := by subst hN; exact hd
   have hNt : (N.tp 0).timer.isTime N.s.flavor N.s.now = false := by
     subst hN
     simp only [upd_tp, txTp, ↓reduceIte, upd_flavor, upd_now]
-    exact isTime_fromNow_early _ _ _ _ (Nat.le_refl _) (by omega) (by omega) (by omega)
+    exact isTime_fromNow_early _ _ _ _ ht0.1 ht0.2 (by omega) (by omega)
   rw [poll_solo N d hNd hNq (fun _ => hNt) (by subst hN; simp)]
   have hrx : N.rxq = [cmIn peer d.source (endAckBytes m.pgn nb np)] := by subst hN; rfl
   rw [hrx]
@@ -183,7 +185,7 @@ theorem poll_endack (a : Node) (d : Dev) (m : Msg) (peer seq tmo nb np : Nat) (s
   unfold handleCM
   have hfd : findDev N.s.devs d.source = some 0 := by rw [hNd]; exact findDev_solo d (by omega)
   simp only [hfd, endAckBytes, le3, List.cons_append, List.nil_append, List.getD_cons_zero, List.getD_cons_succ, le3_sum m.pgn hpgn]
-  simp only [Nat.reduceEqDiff, or_self, or_true, true_or, ↓reduceIte]
+  simp only [Nat.reduceEqDiff, or_self, true_or, ↓reduceIte]
   have hpend : (N.tp 0).pend = m := by subst hN; simp [txTp]
   have h1 : ¬ (m.dst = 0xff) := by omega
   have h2 : ¬ (m.pgn ≠ m.pgn ∨ m.dst ≠ peer) := by
